@@ -3,6 +3,7 @@ package main
 // VC generator core: state, types→sorts, obligations, merging.
 
 import (
+	"os"
 	"fmt"
 	"go/token"
 	"go/types"
@@ -96,6 +97,7 @@ type Obligation struct {
 	Expected string // "" or "known-finding"
 	Block    *ssa.BasicBlock
 	Split    []*Term
+	SplitFirst bool
 	RawQuery string
 }
 
@@ -454,7 +456,7 @@ func (v *FnVC) stableRef(heap string, ref *Term) bool {
 // existed at entry.
 func (v *FnVC) noteEntryLoad(h *Term, val *Term) {
 	if h.Op == "var" && strings.HasSuffix(h.Name, "@0") && val != nil && val.Sort == SSlice {
-		belowBase[SRef(val).String()] = true
+		if os.Getenv("GOVC_NOENTRYLOAD") == "" { belowBase[SRef(val).String()] = true }
 	}
 }
 
